@@ -126,6 +126,12 @@ PIPELINES = {
         "drivers": [{"name": "all", "cmd": ["api", "{out}", "{tier}"], "random": True}],
         "min_events": 50,
     },
+    "builders": {
+        "variants": ["ring", "awslc"],
+        "mc": [{"module": "MC_Builders", "workers": 4}],
+        "drivers": [{"name": "cases", "cmd": ["builders", "{cases}", "{out}", "{workdir}"], "cases": "MC_Builders", "chunk": 100000}],
+        "min_events": 500,
+    },
     "csrparse": {
         "variants": ["ring"],
         "mc": [{"module": "MC_CsrParse", "workers": 4, "emits": False}],
@@ -192,7 +198,7 @@ def _p(level, pipelines, clauses, rule, ops=None, exhaustive=False, assumptions=
 
 PROPS = {
     # pseudo property (not in MANIFEST.json): smaller public operations, specification module Api
-    "API": _p("exploration", ["api"], ["API."], "random values for SerialNumber, CertificateParams::new, insert_extended_key_usage, Zeroize, generate_simple_self_signed, conversions",
+    "API": _p("exploration", ["api", "builders"], ["API."], "random values for SerialNumber, CertificateParams::new, insert_extended_key_usage, Zeroize, generate_simple_self_signed, conversions; every call sequence of MC_Builders through the rustls-cert-gen builder library",
               ops=None, exhaustive=False),
     "C02": _p("model_checking", ["cert", "sessions"], ["C02."],
               "cases = elements of the finite set Cases of spec/MC_Cert.tla (presence product + value sweeps); an event is distinct by its abstract args (parameters, key algorithms, loading entry point) without key material; every event is non-trivial in that at least the subject, validity and serial clauses are exercised",
